@@ -123,3 +123,30 @@ Definition dispatch_class (regs : list sroute) (dflt : option Z) (mws : list (Z 
             else if list_eqb ev_eqb trace (spec_trace mws None) then 0%N else 7%N
         end
   end.
+
+(* ------------------------------------------------------------------ *)
+(* Requests served through the adapter mux.ToHandler (what the udp/tcp/dtls
+   servers call).  "The route variables passed to the handler equal the
+   corresponding substrings of the path": the handler of a request that no route
+   matches has no route, hence no route variables.  A registered pattern is
+   never empty (FilterPath turns "" into "/"), so an empty PathTemplate means
+   that no route was selected. *)
+Definition adapt_class (regs : list sroute) (dflt : option Z) (mws : list (Z * bool))
+           (path : str) (trace : list ev) (params : option (str * str * list (str * str))) : N :=
+  match params with
+  | Some (_, [], vars) =>
+      if negb (is_nil vars) then 6%N else dispatch_class regs dflt mws path trace None
+  | _ => dispatch_class regs dflt mws path trace params
+  end.
+
+(* "registering or removing routes concurrently with dispatch is free of data
+   races": the route table is guarded by the router's lock, so (11) every time
+   the longest-match scan looks at a route the lock is held (by the scanning
+   goroutine, for reading), and (12) no Handle / HandleRemove / DefaultHandle
+   that takes effect runs to completion while another goroutine is in the
+   middle of its scan.
+   [held]: the lock was found held at each visit of the scan; [inside]: an
+   operation issued by another goroutine during the scan took effect and
+   returned before the scan went on. *)
+Definition excl_class (held : list bool) (inside : bool) : N :=
+  if negb (forallb (fun b : bool => b) held) then 11%N else if inside then 12%N else 0%N.
